@@ -20,16 +20,16 @@ const ModPrefix = "github.com/oasisprotocol/oasis-core/go"
 // Prog is the loaded, type-checked and SSA-lowered program.
 type Prog struct {
 	NamesAliased, NamesRenamed int // functions rendered under the recorded parameter names / of which renamed since
-	RepoGo   string
-	Fset     *token.FileSet
-	Pkgs     []*packages.Package          // module packages
-	ByPath   map[string]*packages.Package // all packages by import path
-	SSA      *ssa.Program
-	ModFuncs []*ssa.Function          // every function (incl. anonymous, instantiations) whose package is in the module
-	ByName   map[string]*ssa.Function // short qualified name -> function
-	AllFuncs map[*ssa.Function]bool
-	LoadS    float64
-	SSAS     float64
+	RepoGo                     string
+	Fset                       *token.FileSet
+	Pkgs                       []*packages.Package          // module packages
+	ByPath                     map[string]*packages.Package // all packages by import path
+	SSA                        *ssa.Program
+	ModFuncs                   []*ssa.Function          // every function (incl. anonymous, instantiations) whose package is in the module
+	ByName                     map[string]*ssa.Function // short qualified name -> function
+	AllFuncs                   map[*ssa.Function]bool
+	LoadS                      float64
+	SSAS                       float64
 
 	cg *CG
 }
